@@ -18,6 +18,14 @@
 (* the peek) is what a careless refactoring would do; it is disabled in the      *)
 (* property configuration and enabled in B2F_deviation.cfg, where TLC produces   *)
 (* the counterexample to NoFalseSent.                                            *)
+(*                                                                              *)
+(* CmsQuit is a deviation of the *other* station from turn-taking that Winlink's *)
+(* CMS practises (fbb/wl2k_test.go): when its block is done and it has nothing   *)
+(* more, it says FQ and hangs up without waiting for the turn-over.  The code    *)
+(* copes because the write error of its own pointless FF / FQ line is ignored    *)
+(* (b2f.go, handleOutbound); FFWriteErrorFatal is the deviation that does not    *)
+(* ignore it: B2F_cms.cfg checks QuitIsClean with the first, B2F_cmsfatal.cfg    *)
+(* must violate it with both.                                                    *)
 EXTENDS Naturals, Sequences, FiniteSets, TLC
 
 CONSTANTS MidA, MidB,       \* message identifiers queued at station A / B
@@ -25,7 +33,7 @@ CONSTANTS MidA, MidB,       \* message identifiers queued at station A / B
           MaxBlock,         \* proposals per block
           MaxSessions,
           MaxFaults,        \* Cut + StoreFail events over all sessions
-          Deviations        \* subset of {"ReportBeforeConfirm"}
+          Deviations        \* subset of {"ReportBeforeConfirm", "CmsQuit", "FFWriteErrorFatal"}
 
 Station == {"A", "B"}
 Peer(s) == IF s = "A" THEN "B" ELSE "A"
@@ -55,9 +63,10 @@ VARIABLES
     wire,        \* [Station -> Seq(unit)]  units in flight TO the station
     link,        \* "up" / "cut"
     master, session, faults,
+    cms,         \* "none" or the station that quit CMS-style in this session
     Policy       \* [MID -> Policies], chosen initially (every assignment is explored), constant afterwards
 
-vars == <<outbox, sentOK, sentRej, inbox, pc, blk, toSend, written, rejNow, deferred, toRecv, noMsgs, wire, link, master, session, faults, Policy>>
+vars == <<outbox, sentOK, sentRej, inbox, pc, blk, toSend, written, rejNow, deferred, toRecv, noMsgs, wire, link, master, session, faults, cms, Policy>>
 
 Terminal == {"done", "failed", "lost"}
 Reading  == {"awaitFS", "awaitConfirm", "recv", "receiving"}
@@ -66,7 +75,7 @@ SessionStart(m) ==
     /\ pc' = [s \in Station |-> IF s = m THEN "recv" ELSE "turn"]       \* the slave has the first turn
     /\ blk' = [s \in Station |-> <<>>] /\ toSend' = [s \in Station |-> <<>>] /\ written' = [s \in Station |-> {}]
     /\ rejNow' = [s \in Station |-> {}] /\ deferred' = [s \in Station |-> {}] /\ toRecv' = [s \in Station |-> <<>>]
-    /\ noMsgs' = [s \in Station |-> FALSE] /\ wire' = [s \in Station |-> <<>>] /\ link' = "up" /\ master' = m
+    /\ noMsgs' = [s \in Station |-> FALSE] /\ wire' = [s \in Station |-> <<>>] /\ link' = "up" /\ master' = m /\ cms' = "none"
 
 Init ==
     /\ outbox = [s \in Station |-> Owned(s)] /\ sentOK = [s \in Station |-> {}] /\ sentRej = [s \in Station |-> {}]
@@ -76,7 +85,7 @@ Init ==
     /\ pc = [s \in Station |-> IF s = master THEN "recv" ELSE "turn"]
     /\ blk = [s \in Station |-> <<>>] /\ toSend = [s \in Station |-> <<>>] /\ written = [s \in Station |-> {}]
     /\ rejNow = [s \in Station |-> {}] /\ deferred = [s \in Station |-> {}] /\ toRecv = [s \in Station |-> <<>>]
-    /\ noMsgs = [s \in Station |-> FALSE] /\ wire = [s \in Station |-> <<>>] /\ link = "up"
+    /\ noMsgs = [s \in Station |-> FALSE] /\ wire = [s \in Station |-> <<>>] /\ link = "up" /\ cms = "none"
 
 (* put a unit on the wire towards station r (vanishes when the link is cut) *)
 Send(r, u) == wire' = IF link = "up" THEN [wire EXCEPT ![r] = Append(@, u)] ELSE wire
@@ -90,7 +99,7 @@ NoOutbound(s) ==       \* nothing to propose: FF, or FQ when the peer had nothin
     /\ pc[s] = "turn" /\ outbox[s] \ deferred[s] = {}
     /\ Send(Peer(s), [k |-> IF noMsgs[s] THEN "FQ" ELSE "FF"])
     /\ pc' = [pc EXCEPT ![s] = IF noMsgs[s] THEN "done" ELSE "recv"]
-    /\ UNCHANGED <<pvars, blk, toSend, written, rejNow, deferred, toRecv, noMsgs, link, master, session, faults>>
+    /\ UNCHANGED <<pvars, blk, toSend, written, rejNow, deferred, toRecv, noMsgs, link, master, session, faults, cms>>
 
 Propose(s) ==
     /\ pc[s] = "turn" /\ outbox[s] \ deferred[s] # {}
@@ -98,7 +107,7 @@ Propose(s) ==
        /\ blk' = [blk EXCEPT ![s] = b]
        /\ Send(Peer(s), [k |-> "Block", ms |-> b])
     /\ pc' = [pc EXCEPT ![s] = "awaitFS"]
-    /\ UNCHANGED <<pvars, toSend, written, rejNow, deferred, toRecv, noMsgs, link, master, session, faults>>
+    /\ UNCHANGED <<pvars, toSend, written, rejNow, deferred, toRecv, noMsgs, link, master, session, faults, cms>>
 
 RecvFS(s) ==           \* per answer: SetDeferred at once, note rejects, queue accepted transfers
     /\ pc[s] = "awaitFS" /\ wire[s] # <<>> /\ Head(wire[s]).k = "FS"
@@ -108,7 +117,7 @@ RecvFS(s) ==           \* per answer: SetDeferred at once, note rejects, queue a
           /\ rejNow' = [rejNow EXCEPT ![s] = {blk[s][i] : i \in idx("-")}]
           /\ toSend' = [toSend EXCEPT ![s] = Sorted({blk[s][i] : i \in idx("+")})]
     /\ TakeUnit(s) /\ pc' = [pc EXCEPT ![s] = "sending"]
-    /\ UNCHANGED <<pvars, blk, written, toRecv, noMsgs, link, master, session, faults>>
+    /\ UNCHANGED <<pvars, blk, written, toRecv, noMsgs, link, master, session, faults, cms>>
 
 SendFrame(s) ==
     /\ pc[s] = "sending" /\ toSend[s] # <<>>
@@ -120,7 +129,7 @@ SendFrame(s) ==
             THEN /\ sentOK' = [sentOK EXCEPT ![s] = @ \cup {m}] /\ outbox' = [outbox EXCEPT ![s] = @ \ {m}]
             ELSE UNCHANGED <<sentOK, outbox>>
     /\ toSend' = [toSend EXCEPT ![s] = Tail(@)]
-    /\ UNCHANGED <<sentRej, inbox, pc, blk, rejNow, deferred, toRecv, noMsgs, link, master, session, faults, Policy>>
+    /\ UNCHANGED <<sentRej, inbox, pc, blk, rejNow, deferred, toRecv, noMsgs, link, master, session, faults, cms, Policy>>
 
 ReportRejected(s) ==   \* after the block was written: rejected ones are reported at once (the peer already has them)
     /\ pc[s] = "sending" /\ toSend[s] = <<>>
@@ -128,23 +137,30 @@ ReportRejected(s) ==   \* after the block was written: rejected ones are reporte
     /\ outbox' = [outbox EXCEPT ![s] = @ \ rejNow[s]]
     /\ rejNow' = [rejNow EXCEPT ![s] = {}]
     /\ pc' = [pc EXCEPT ![s] = "awaitConfirm"]
-    /\ UNCHANGED <<sentOK, inbox, blk, toSend, written, deferred, toRecv, noMsgs, wire, link, master, session, faults, Policy>>
+    /\ UNCHANGED <<sentOK, inbox, blk, toSend, written, deferred, toRecv, noMsgs, wire, link, master, session, faults, cms, Policy>>
+
+CmsQuit(s) ==          \* not this library: a CMS-like station with nothing more to send does not wait for the turn-over
+    /\ "CmsQuit" \in Deviations /\ cms = "none"
+    /\ pc[s] = "awaitConfirm" /\ outbox[s] \ (deferred[s] \cup written[s]) = {}
+    /\ Send(Peer(s), [k |-> "FQ"])
+    /\ pc' = [pc EXCEPT ![s] = "done"] /\ cms' = s
+    /\ UNCHANGED <<pvars, blk, toSend, written, rejNow, deferred, toRecv, noMsgs, link, master, session, faults>>
 
 Confirm(s) ==          \* Peek: the first unit of the peer's next turn confirms the block; nothing is consumed
     /\ pc[s] = "awaitConfirm" /\ wire[s] # <<>>
     /\ pc' = [pc EXCEPT ![s] = IF Head(wire[s]).k \in {"Block", "FF", "FQ"} THEN "report" ELSE "failed"]
-    /\ UNCHANGED <<pvars, blk, toSend, written, rejNow, deferred, toRecv, noMsgs, wire, link, master, session, faults>>
+    /\ UNCHANGED <<pvars, blk, toSend, written, rejNow, deferred, toRecv, noMsgs, wire, link, master, session, faults, cms>>
 
 ReportSent(s, m) ==    \* map iteration order: any m
     /\ pc[s] = "report" /\ m \in written[s]
     /\ sentOK' = [sentOK EXCEPT ![s] = @ \cup {m}] /\ outbox' = [outbox EXCEPT ![s] = @ \ {m}]
     /\ written' = [written EXCEPT ![s] = @ \ {m}]
-    /\ UNCHANGED <<sentRej, inbox, pc, blk, toSend, rejNow, deferred, toRecv, noMsgs, wire, link, master, session, faults, Policy>>
+    /\ UNCHANGED <<sentRej, inbox, pc, blk, toSend, rejNow, deferred, toRecv, noMsgs, wire, link, master, session, faults, cms, Policy>>
 
 ReportDone(s) ==
     /\ pc[s] = "report" /\ written[s] = {}
     /\ pc' = [pc EXCEPT ![s] = "recv"]
-    /\ UNCHANGED <<pvars, blk, toSend, written, rejNow, deferred, toRecv, noMsgs, wire, link, master, session, faults>>
+    /\ UNCHANGED <<pvars, blk, toSend, written, rejNow, deferred, toRecv, noMsgs, wire, link, master, session, faults, cms>>
 
 -----------------------------------------------------------------------------
 (* their turn *)
@@ -160,7 +176,7 @@ RecvBlock(s) ==
           /\ toRecv' = [toRecv EXCEPT ![s] = acc]
           /\ pc' = [pc EXCEPT ![s] = IF acc = <<>> THEN "turn" ELSE "receiving"]
     /\ noMsgs' = [noMsgs EXCEPT ![s] = FALSE]
-    /\ UNCHANGED <<pvars, blk, toSend, written, rejNow, deferred, link, master, session, faults>>
+    /\ UNCHANGED <<pvars, blk, toSend, written, rejNow, deferred, link, master, session, faults, cms>>
 
 StoreOK(s) ==          \* a complete transfer arrived: ProcessInbound, then read on
     /\ pc[s] = "receiving" /\ wire[s] # <<>> /\ Head(wire[s]).k = "Frame" /\ Head(wire[s]).m = Head(toRecv[s])
@@ -168,7 +184,7 @@ StoreOK(s) ==          \* a complete transfer arrived: ProcessInbound, then read
     /\ toRecv' = [toRecv EXCEPT ![s] = Tail(@)]
     /\ TakeUnit(s)
     /\ pc' = [pc EXCEPT ![s] = IF Len(toRecv[s]) = 1 THEN "turn" ELSE "receiving"]
-    /\ UNCHANGED <<outbox, sentOK, sentRej, blk, toSend, written, rejNow, deferred, noMsgs, link, master, session, faults, Policy>>
+    /\ UNCHANGED <<outbox, sentOK, sentRej, blk, toSend, written, rejNow, deferred, noMsgs, link, master, session, faults, cms, Policy>>
 
 StoreFail(s) ==        \* the handler reports a storage error: the session echoes it and ends
     /\ faults < MaxFaults
@@ -176,17 +192,17 @@ StoreFail(s) ==        \* the handler reports a storage error: the session echoe
     /\ faults' = faults + 1
     /\ wire' = IF link = "up" THEN [wire EXCEPT ![s] = Tail(@), ![Peer(s)] = Append(@, [k |-> "Err"])] ELSE [wire EXCEPT ![s] = Tail(@)]
     /\ pc' = [pc EXCEPT ![s] = "failed"]
-    /\ UNCHANGED <<pvars, blk, toSend, written, rejNow, deferred, toRecv, noMsgs, link, master, session>>
+    /\ UNCHANGED <<pvars, blk, toSend, written, rejNow, deferred, toRecv, noMsgs, link, master, session, cms>>
 
 RecvFF(s) ==
     /\ pc[s] = "recv" /\ wire[s] # <<>> /\ Head(wire[s]).k = "FF"
     /\ TakeUnit(s) /\ noMsgs' = [noMsgs EXCEPT ![s] = TRUE] /\ pc' = [pc EXCEPT ![s] = "turn"]
-    /\ UNCHANGED <<pvars, blk, toSend, written, rejNow, deferred, toRecv, link, master, session, faults>>
+    /\ UNCHANGED <<pvars, blk, toSend, written, rejNow, deferred, toRecv, link, master, session, faults, cms>>
 
 RecvFQ(s) ==
     /\ pc[s] = "recv" /\ wire[s] # <<>> /\ Head(wire[s]).k = "FQ"
     /\ TakeUnit(s) /\ pc' = [pc EXCEPT ![s] = "done"]
-    /\ UNCHANGED <<pvars, blk, toSend, written, rejNow, deferred, toRecv, noMsgs, link, master, session, faults>>
+    /\ UNCHANGED <<pvars, blk, toSend, written, rejNow, deferred, toRecv, noMsgs, link, master, session, faults, cms>>
 
 Unexpected(s) ==       \* an error line, or a unit that does not belong here: the session fails
     /\ pc[s] \in {"awaitFS", "recv", "receiving"} /\ wire[s] # <<>>
@@ -195,19 +211,22 @@ Unexpected(s) ==       \* an error line, or a unit that does not belong here: th
        \/ pc[s] = "receiving" /\ Head(wire[s]).k # "Frame"
        \/ pc[s] = "recv" /\ Head(wire[s]).k \in {"FS", "Frame"}
     /\ pc' = [pc EXCEPT ![s] = "failed"]
-    /\ UNCHANGED <<pvars, blk, toSend, written, rejNow, deferred, toRecv, noMsgs, wire, link, master, session, faults>>
+    /\ UNCHANGED <<pvars, blk, toSend, written, rejNow, deferred, toRecv, noMsgs, wire, link, master, session, faults, cms>>
 
 ReadEOF(s) ==          \* nothing left to read and the link is gone or the peer has closed: ErrConnLost
     /\ pc[s] \in Reading /\ wire[s] = <<>>
     /\ link = "cut" \/ pc[Peer(s)] \in Terminal
     /\ pc' = [pc EXCEPT ![s] = "lost"]
-    /\ UNCHANGED <<pvars, blk, toSend, written, rejNow, deferred, toRecv, noMsgs, wire, link, master, session, faults>>
+    /\ UNCHANGED <<pvars, blk, toSend, written, rejNow, deferred, toRecv, noMsgs, wire, link, master, session, faults, cms>>
 
 WriteFails(s) ==       \* a write on a link that is gone, or to a peer that has closed its connection, may fail
-    /\ pc[s] \in {"turn", "sending"}
+    /\ \/ pc[s] = "sending"
+       \/ pc[s] = "turn" /\ outbox[s] \ deferred[s] # {}
+       \* the error of writing the FF / FQ of an empty turn is ignored (the session reads on and finds EOF or the peer's FQ)
+       \/ pc[s] = "turn" /\ "FFWriteErrorFatal" \in Deviations
     /\ link = "cut" \/ pc[Peer(s)] \in Terminal
     /\ pc' = [pc EXCEPT ![s] = "lost"]
-    /\ UNCHANGED <<pvars, blk, toSend, written, rejNow, deferred, toRecv, noMsgs, wire, link, master, session, faults>>
+    /\ UNCHANGED <<pvars, blk, toSend, written, rejNow, deferred, toRecv, noMsgs, wire, link, master, session, faults, cms>>
 
 -----------------------------------------------------------------------------
 (* environment *)
@@ -216,7 +235,7 @@ Cut ==
     /\ link' = "cut" /\ faults' = faults + 1
     /\ \E ka \in 0..Len(wire["A"]), kb \in 0..Len(wire["B"]) :
           wire' = [s \in Station |-> SubSeq(wire[s], 1, IF s = "A" THEN ka ELSE kb)]     \* each receiver gets a prefix
-    /\ UNCHANGED <<pvars, pc, blk, toSend, written, rejNow, deferred, toRecv, noMsgs, master, session>>
+    /\ UNCHANGED <<pvars, pc, blk, toSend, written, rejNow, deferred, toRecv, noMsgs, master, session, cms>>
 
 NextSession ==
     /\ \A s \in Station : pc[s] \in Terminal
@@ -226,7 +245,7 @@ NextSession ==
     /\ UNCHANGED <<pvars, faults>>
 
 StationStep(s) ==
-    \/ NoOutbound(s) \/ Propose(s) \/ RecvFS(s) \/ SendFrame(s) \/ ReportRejected(s) \/ Confirm(s)
+    \/ NoOutbound(s) \/ Propose(s) \/ RecvFS(s) \/ SendFrame(s) \/ ReportRejected(s) \/ Confirm(s) \/ CmsQuit(s)
     \/ (\E m \in MID : ReportSent(s, m)) \/ ReportDone(s)
     \/ RecvBlock(s) \/ StoreOK(s) \/ RecvFF(s) \/ RecvFQ(s) \/ Unexpected(s) \/ ReadEOF(s) \/ WriteFails(s)
 
@@ -254,11 +273,15 @@ OnlyPeersMessages == \A s \in Station : \A m \in MID : inbox[s][m] > 0 => m \in 
 BlockBound == \A s \in Station : Len(blk[s]) <= MaxBlock
 (* a completed exchange (both ended by FF/FQ, no fault in this session) has delivered everything acceptable *)
 CompleteExchange ==
-    (\A s \in Station : pc[s] = "done") =>
+    ((\A s \in Station : pc[s] = "done") /\ cms = "none") =>       \* (a CMS-style quit leaves the quitter's last block unconfirmed)
         \A s \in Station : \A m \in Owned(s) :
             CASE Policy[m] = "+" -> m \in sentOK[s] \cup sentRej[s] /\ inbox[Peer(s)][m] = 1
               [] Policy[m] = "-" -> m \in sentRej[s] \/ m \in sentOK[s]
               [] OTHER -> m \in outbox[s]
+
+(* a station that has received everything the CMS-like peer sent and has nothing to send itself ends cleanly after the *)
+(* peer's early FQ and hang-up: it does not report a lost connection                                                    *)
+QuitIsClean == \A s \in Station : (cms = Peer(s) /\ link = "up" /\ outbox[s] \ deferred[s] = {}) => pc[s] # "lost"
 
 (* liveness *)
 Termination == <>(\A s \in Station : pc[s] \in Terminal)
